@@ -257,7 +257,29 @@ fn run(ctx: &Ctx) -> Report {
     for i in 0..ctx.tier.pick(1500, 30_000) {
         cases.push(Case::Decl(i));
     }
-    let directed = crate::checks::c01::scoping_programs();
+    let mut directed = crate::checks::c01::scoping_programs();
+    // double precision constants with full 16-17 digit mantissas (what the exporters themselves print for an arbitrary double):
+    // reading the emitted literal back must give the same double again
+    for block in 0..ctx.tier.pick(8, 64) {
+        let mut rng = Rng::for_case(ctx.seed, 0x4d0b, block);
+        let mut text = String::new();
+        let mut sum = Vec::new();
+        for i in 0..40 {
+            let mantissa = 1.0 + (rng.next_u32() as f64 * 4294967296.0 + rng.next_u32() as f64) / 18446744073709551616.0;
+            let exp = rng.below(61) as i32 - 30;
+            let v = mantissa * 10f64.powi(exp) * if rng.chance(1, 4) { -1.0 } else { 1.0 };
+            let lit = format!("{:e}", v);
+            match i % 4 {
+                0 => text.push_str(&format!("static const double kd{} = {}L;\n", i, lit)),
+                1 => text.push_str(&format!("static const double kd{} = {}L;\n", i, { let t = format!("{}", v); if t.contains('.') { t } else { format!("{}.0", t) } })),
+                2 => text.push_str(&format!("static const double kd{} = {} * 2.0;\n", i, lit)),
+                _ => text.push_str(&format!("static const float kd{} = (float)({} / 3.0);\n", i, lit)),
+            }
+            sum.push(format!("(double)kd{}", i));
+        }
+        text.push_str(&format!("double total{}() {{ return {}; }}\n", block, sum.join(" + ")));
+        directed.push(text);
+    }
     for i in 0..directed.len() {
         cases.push(Case::Directed(i));
     }
